@@ -133,6 +133,9 @@ func (e *Engine) evalEmitOnce(runs []emitRun) []emitObl {
 				cprops = append(cprops, "C04")
 			}
 		}
+		if r.entry.Dir == "test" {
+			cprops = []string{"C17"}
+		}
 		if r.entry.Lang == "lua" {
 			cprops = append(cprops, "C15")
 			if r.entry.Dir != "dec" {
@@ -147,11 +150,15 @@ func (e *Engine) evalEmitOnce(runs []emitRun) []emitObl {
 			add(base+":run", cprops, false, "no path of the emitter returns a text")
 			continue
 		}
+		if r.entry.Dir == "test" {
+			obls = append(obls, testCellObligations(base, r)...)
+			continue
+		}
 		if r.entry.Lang == "lua" {
 			for _, o := range luaCellObligations(base, r) {
 				obls = append(obls, o)
 			}
-			if r.entry.Dir != "dec" {
+			if r.entry.Dir != "dec" || r.cell.Kind == "empty" {
 				if r.entry.Dir == "fielddef" {
 					luaDefs[r.cell.ID] = r
 				}
@@ -519,6 +526,9 @@ func cmdEmit(args []string) {
 				continue
 			}
 			if en.Dir == "dispatch" && c.Kind != "match" {
+				continue
+			}
+			if c.Kind == "empty" && !(en.Lang == "lua" && (en.Dir == "dec" || en.Dir == "sub")) {
 				continue
 			}
 			if c.Kind == "order" && (en.Dir == "dispatch" || en.Lang == "rust") {
